@@ -82,7 +82,7 @@ def linker_class(nL, lcheck):
             elif k == 'link':
                 src = self.submodels[act['a']]
                 dst = self.submodels[act['b']]
-                dst.__dict__[f"_E{act['j']}"][t] = src.__dict__[f"_E{act['i']}"][t]
+                dst.__dict__['_' + list(dst.ENDOGENOUS)[act['j']]][t] = src.__dict__['_' + list(src.ENDOGENOUS)[act['i']]][t]
 
         def _snapshot(self, t, submodels):
             vec = [[float(self.__dict__['_' + n][t]) for n in self.CHECK]]
@@ -94,8 +94,8 @@ def linker_class(nL, lcheck):
         def solve_t_before(self, t, *, submodels=None, **kw):
             self.log.append('sb')
             self.seen_at_before = ([float(self.__dict__['_' + n][t]) for n in names],
-                                   {k_: [float(self.submodels[k_].__dict__[f'_E{i}'][t])
-                                         for i in range(len(self.submodels[k_].ENDOGENOUS))]
+                                   {k_: [float(self.submodels[k_].__dict__['_' + nm_][t])
+                                         for nm_ in self.submodels[k_].ENDOGENOUS]
                                     for k_ in submodels if k_ in self.submodels})
             self.vecs.append(self._snapshot(t, submodels))
             acts = self.solve_before_s
@@ -135,7 +135,8 @@ def build(case):
     log = []
     for i, s in enumerate(case['subs']):
         sub_case = {'n': n, 'nE': s['nE'], 'check': s['check'], 'vals': s['vals'], 'status': s['status'], 'iters': s['iters'],
-                    'script': s['script'], 'before': [], 'after': []}
+                    'script': s['script'], 'before': [], 'after': [],
+                    'names': s.get('names'), 'prov': s.get('prov', 'fresh'), 'write': s.get('write', 'inplace')}
         m = sc.build_instance(sub_case, exo=())
         m.__dict__['calls'] = ProxyLog(log, i)
         subs[i] = m
@@ -165,7 +166,7 @@ def state_str(L, case):
     for i, s in enumerate(case['subs']):
         m = L.submodels[i]
         subs.append(''.join(str(x) for x in m.status) + '~' + ','.join(str(int(x)) for x in m.iterations) + '~' +
-                    ';'.join(','.join(str(bits(x)) for x in m.__dict__[f'_E{j}']) for j in range(s['nE'])))
+                    ';'.join(','.join(str(bits(x)) for x in m.__dict__['_' + list(m.ENDOGENOUS)[j]]) for j in range(s['nE'])))
     return f'{st}|{it}|{",".join(L.log)}|{lv}|' + '/'.join(subs)
 
 
@@ -213,7 +214,10 @@ def gen_case(rng):
         script = [sc.make_script(seq if p == pos else [], [vals[j][src if p == pos else p] for j in range(nE)], nE) for p in range(n)]
         subs.append({'nE': nE, 'check': check, 'vals': [[bits(x) for x in r] for r in vals], 'script': script,
                      'status': ''.join(rng.choice('-.F') for _ in range(n)) if rng.random() < 0.3 else '-' * n,
-                     'iters': [rng.choice([-1, 5]) for _ in range(n)] if rng.random() < 0.3 else [-1] * n})
+                     'iters': [rng.choice([-1, 5]) for _ in range(n)] if rng.random() < 0.3 else [-1] * n,
+                     # implementation-side variations the model cannot see
+                     'names': rng.choice(sc.NAME_STYLES), 'prov': rng.choice(sc.PROVENANCES),
+                     'write': rng.choice(['inplace', 'inplace', 'rebind'])})
     nL = rng.choice([0, 0, 1, 2])
     lcheck = sorted(rng.sample(range(nL), rng.choice([nL, 0]))) if nL else []
     lvals = [[float(rng.choice([0.0, 1.0, 7.0])) for _ in range(n)] for _ in range(nL)]
